@@ -12,7 +12,7 @@ theorem mid_spec {src : Nat → UInt8} {s : Sorter} (h : Inv src s) (start : Nat
     (hgaps : s.gaps = pre ++ sg :: (mid ++ eg :: post))
     (hsub : q1.Sublist s.queue)
     (hmem : ∀ x, x ∈ q1 ↔ (x ∈ s.queue ∧ ¬(start ≤ x.1 ∧ x.1 < pos)))
-    (hpos : pos ≤ sg.1 ∨ (start = sg.2 ∧ ∃ nx, (mid ++ eg :: post).head? = some nx ∧ pos = nx.1)) :
+    (hpos : pos ≤ sg.2 ∨ (start = sg.2 ∧ ∃ nx, (mid ++ eg :: post).head? = some nx ∧ pos = nx.1)) :
     ∃ q2 dmid, midStage false (mid ++ eg :: post) q1 sg.2 eg.1 = some (eg :: post, q2, dmid) ∧
       q2.Sublist q1 ∧ (∀ x, x ∈ q2 ↔ (x ∈ q1 ∧ ¬(sg.2 ≤ x.1 ∧ x.1 < eg.1))) ∧
       (dmid ++ cbsOf q2).Perm (cbsOf q1) := by
